@@ -9,14 +9,16 @@
 (*   SIM : SimSpec          -- random deeper trees (depth <= 4)            *)
 (***************************************************************************)
 EXTENDS QueryUniv, Json
-CONSTANTS Shard, NShards, WrapSel       \* WrapSel: 0 = every wrapper (incl. none), else ONE wrapper per triple chosen by (indices + WrapSel)
+CONSTANTS Shard, NShards, Div, WrapSel       \* WrapSel: 0 = every wrapper (incl. none), else ONE wrapper per triple chosen by (indices + WrapSel)
 VARIABLE c
+\* Div: 1 = every (outer, position, inner) triple; d > 1 = the 1/d sample of the triples chosen by WrapSel
 
 WrapIdx(o, p, i) == IF WrapSel = 0 THEN 1 .. Len(Wrappers)
                     ELSE {1 + ((o * 7 + p * 3 + i + WrapSel) % Len(Wrappers))}
 Init == c \in {[o |-> o, p |-> p, i |-> i, w |-> w] :
                  o \in {x \in 1 .. Len(Outers) : x % NShards = Shard}, p \in 1 .. 5, i \in 1 .. Len(InnerNames), w \in 1 .. Len(Wrappers)}
         /\ c.p <= Outers[c.o].k /\ c.w \in WrapIdx(c.o, c.p, c.i)
+        /\ (Div = 1 \/ (c.o * 131 + c.p * 31 + c.i) % Div = WrapSel % Div)
 Next == FALSE /\ c' = c
 Spec == Init /\ [][Next]_c
 
